@@ -12,7 +12,7 @@ Part H (histories): netsim with real switches, real discovery probes (LLDP over 
   the LinkEvent stream must alternate per link, and a frame really flooded by the switches (FLOOD action) from
   every switch must reach every switch of the component exactly once.
 Part P (probe codec): _create_discovery_packet -> bytes -> PacketIn -> Discovery handler for every dpid with
-  bytes in {0,1,0x80,0xff} x a set of port numbers.
+  bytes in {0,1,0x80,0xff} x a set of port numbers; every probe length class x trailing padding 0..24 bytes.
 """
 import itertools, struct
 from mc.engine import pmap, split, explore, Ctx
@@ -75,9 +75,10 @@ class StubCon (object):
     import pox.openflow.libopenflow_01 as of
     self.dpid = dpid; self.connect_time = clock.now - 100; self.sent = []
     self.ports = PortCollection()
-    for p in range(1, nports + 1):
-      self.ports._ports.add(of.ofp_phy_port(port_no=p, hw_addr=bytes([2, 0, 0, 0, dpid & 0xff, p]), name="p%d" % p))
-    self.config = dict((p, 0) for p in range(1, nports + 1))
+    plist = list(range(1, nports + 1)) if isinstance(nports, int) else list(nports)
+    for p in plist:
+      self.ports._ports.add(of.ofp_phy_port(port_no=p, hw_addr=bytes([2, 0, 0, dpid & 0xff, p >> 8, p & 0xff]), name="p%d" % p))
+    self.config = dict((p, 0) for p in plist)
   def send (self, msg):
     import pox.openflow.libopenflow_01 as of
     self.sent.append(msg)
@@ -85,8 +86,25 @@ class StubCon (object):
       self.config[msg.port_no] = (self.config[msg.port_no] & ~msg.mask) | (msg.config & msg.mask)
 
 
-def build_graph (n, pairs, dpids):
-  """Returns (directed physical links [(a,pa,b,pb)], ports per switch).  Ports are allocated per switch in order."""
+SELF_KINDS = ("none", "self", "self>")          # per switch: a cable between two of its own ports (both directions / one seen)
+NUMBERINGS = ("low", "256", "below-max", "max-down", "max-up")
+NUMBERING_CLASS = {"256": "256", "below-max": "OFPP_MAX-1", "max-down": "OFPP_MAX", "max-up": "OFPP_MAX"}
+
+def number_port (scheme, p, k):
+  """Actual port number of the p-th (1-based) of a switch's k ports (the k-th is the host-facing one).
+  low: 1..k; 256: 254.. (crosses the one-byte boundary); below-max: OFPP_MAX-1, OFPP_MAX-2, ... in allocation order;
+  max-down: OFPP_MAX, OFPP_MAX-1, ...; max-up: the last cable port is OFPP_MAX, the others just below it."""
+  if scheme == "low": return p
+  if scheme == "256": return 253 + p
+  if scheme == "below-max": return W.OFPP_MAX - p
+  if scheme == "max-down": return W.OFPP_MAX - (p - 1)
+  if scheme == "max-up": return W.OFPP_MAX - ((k - 1 - p) % k)
+  raise ValueError(scheme)
+
+
+def build_graph (n, pairs, dpids, selfs=None, numbering="low"):
+  """Returns (directed physical links [(a,pa,b,pb)], port numbers per switch).  Ports are allocated per switch in order
+  (pair cables, then the switch's own loop cable if any, then one host-facing port) and then numbered by the scheme."""
   nextp = dict((d, 1) for d in dpids)
   links = []
   def port (d):
@@ -114,13 +132,21 @@ def build_graph (n, pairs, dpids):
       elif kind == "a>b,b>a-diffports":
         pa, pb = port(a), port(b); links.append((a, pa, b, pb))
         pa, pb = port(a), port(b); links.append((b, pb, a, pa))
+  for i, kind in enumerate(selfs or ()):
+    d = dpids[i]
+    if kind == "none": continue
+    p, q = port(d), port(d)
+    links.append((d, p, d, q))
+    if kind == "self": links.append((d, q, d, p))
   # one host-facing port per switch
-  nports = dict((d, nextp[d]) for d in dpids)
-  return links, nports
+  k = dict((d, nextp[d]) for d in dpids)
+  links = [(a, number_port(numbering, pa, k[a]), b, number_port(numbering, pb, k[b])) for (a, pa, b, pb) in links]
+  ports = dict((d, [number_port(numbering, p, k[d]) for p in range(1, k[d] + 1)]) for d in dpids)
+  return links, ports
 
 
-def flood_check (dpids, links, flood_ok, nports, fail):
-  """Own flood simulation over the physical directed links.  flood_ok(d, p) -> port floods."""
+def flood_check (dpids, links, flood_ok, ports, fail):
+  """Own flood simulation over the physical directed links.  flood_ok(d, p) -> port floods; ports[d] = port numbers."""
   out = {}
   for (a, pa, b, pb) in links: out.setdefault((a, pa), []).append((b, pb))
   onlink = set((a, pa) for (a, pa, b, pb) in links) | set((b, pb) for (a, pa, b, pb) in links)
@@ -128,9 +154,9 @@ def flood_check (dpids, links, flood_ok, nports, fail):
   lset = set(links)
   adj = dict((d, set()) for d in dpids)
   for (a, pa, b, pb) in links:
-    if (b, pb, a, pa) in lset: adj[a].add(b); adj[b].add(a)
+    if a != b and (b, pb, a, pa) in lset: adj[a].add(b); adj[b].add(a)
   for d in dpids:
-    for p in range(1, nports[d] + 1):
+    for p in ports[d]:
       if (d, p) not in onlink and not flood_ok(d, p):
         fail("edge-port-not-flooding", "port %d of switch %#x is on no link but has flooding disabled" % (p, d)); return
   for s in dpids:
@@ -145,7 +171,7 @@ def flood_check (dpids, links, flood_ok, nports, fail):
       d, inp = q.pop(0); hops += 1
       if hops > 200:
         fail("flood-loops", "a frame flooded from switch %#x circulates forever" % s); return
-      for p in range(1, nports[d] + 1):
+      for p in ports[d]:
         if p == inp or not flood_ok(d, p): continue
         for (b, pb) in out.get((d, p), []):
           got[b] += 1
@@ -159,27 +185,30 @@ def flood_check (dpids, links, flood_ok, nports, fail):
         fail("flood-duplicates", "a frame flooded from switch %#x reaches switch %#x %d times" % (s, d, got[d])); return
 
 
-def run_graph (n, pairs, dpids, clock_cls):
+def run_graph (n, pairs, dpids, clock_cls, selfs=None, numbering="low"):
   from mc.env import ControllerStack
   clock = clock_cls()
   cs = ControllerStack(clock)
   ev = []
   D, ST, disc = controller_components(clock, ev)
-  links, nports = build_graph(n, pairs, dpids)
+  links, ports = build_graph(n, pairs, dpids, selfs, numbering)
   cons = {}
   for d in dpids:
-    c = StubCon(d, nports[d], clock); cons[d] = c
+    c = StubCon(d, ports[d], clock); cons[d] = c
     cs.nexus._connections[d] = c
   for l in links: disc.adjacency[D.Discovery.Link(*l)] = clock.now
   bad = []
-  def fail (k, what): bad.append(("%s:G:%s" % (PID, k), what))
+  # input class of the case (part of the key): graphs with a switch cabled to itself, and port numberings near the
+  # boundaries of the port number space, are reported apart from the plain cases
+  cls = (":self-link" if selfs and any(k != "none" for k in selfs) else "") + (":ports=%s" % NUMBERING_CLASS[numbering] if numbering != "low" else "")
+  def fail (k, what): bad.append(("%s:G:%s%s" % (PID, k, cls), what))
   try:
     ST._update_tree()
   except Exception as e:
     fail("update-tree-raised:%s" % type(e).__name__, "spanning_tree._update_tree raised %r" % (e,))
     return bad, None
   flood_ok = lambda d, p: not (cons[d].config[p] & NO_FLOOD)
-  flood_check(dpids, links, flood_ok, nports, fail)
+  flood_check(dpids, links, flood_ok, ports, fail)
   obs = tuple(tuple(sorted(p for p in c.config if c.config[p] & NO_FLOOD)) for c in cons.values())
   return bad, obs
 
@@ -188,13 +217,15 @@ def _g_worker (items):
   from mc.env import boot, VClock
   boot()
   rep = Report(PID, "model_checking")
-  for (n, pairs, dpids) in items:
-    bad, obs = run_graph(n, pairs, dpids, VClock)
+  for (n, pairs, dpids, selfs, numbering) in items:
+    bad, obs = run_graph(n, pairs, dpids, VClock, selfs, numbering)
     rep.evaluations += 1; rep.transitions += 1
     rep.outcome(("G", n, obs, tuple(k for k, _ in bad)))
     for k, what in bad:
-      rep.violation(k, what + " [graph on dpids %r: %r]" % (list(dpids), list(pairs)), dict(part="G", n=n, pairs=list(pairs), dpids=list(dpids)))
-    if rep.evaluations % 20000 == 1: rep.sample(dict(part="G", dpids=list(dpids), pairs=list(pairs), no_flood_ports=obs))
+      rep.violation(k, what + " [graph on dpids %r: %r%s%s]" % (list(dpids), list(pairs), selfs and ", own cables %r" % (list(selfs),) or "",
+                                                               numbering != "low" and ", port numbering %s" % numbering or ""),
+                    dict(part="G", n=n, pairs=list(pairs), dpids=list(dpids), selfs=selfs and list(selfs), numbering=numbering))
+    if rep.evaluations % 20000 == 1: rep.sample(dict(part="G", dpids=list(dpids), pairs=list(pairs), selfs=selfs, numbering=numbering, no_flood_ports=obs))
   rep.state_count = rep.evaluations
   return rep
 
@@ -207,11 +238,23 @@ def graph_items (quick):
     if n == 3: orders.append((0x10, 2, 0xff00000000000001))
     alpha = PAIR_QUICK4 if (quick and n == 4) else PAIR_QUICK
     for pairs in itertools.product(alpha, repeat=npairs):
-      for dp in orders: items.append((n, pairs, dp))
+      for dp in orders: items.append((n, pairs, dp, None, "low"))
+    # the same graphs with the ports numbered at the boundaries of the port number space
+    if n <= (3 if quick else 4):
+      for pairs in itertools.product(PAIR_QUICK4 if n == 4 else alpha, repeat=npairs):
+        for dp in orders[:2]:
+          for numbering in NUMBERINGS[1:]: items.append((n, pairs, dp, None, numbering))
+    # ... and with every non-empty assignment of own cables (a switch cabled to itself) to the switches
+    if n <= 3:
+      salpha = PAIR_QUICK4 if (quick and n == 3) else PAIR_QUICK
+      for pairs in itertools.product(salpha, repeat=npairs):
+        for selfs in itertools.product(SELF_KINDS, repeat=n):
+          if all(k == "none" for k in selfs): continue
+          for dp in (orders[:1] if (quick and n == 3) else orders[:2]): items.append((n, pairs, dp, selfs, "low"))
   if not quick:
     for pairs in itertools.product(PAIR_THOROUGH5, repeat=10):
-      items.append((5, pairs, (1, 2, 3, 4, 5)))
-      items.append((5, pairs, (5, 3, 1, 4, 2)))
+      items.append((5, pairs, (1, 2, 3, 4, 5), None, "low"))
+      items.append((5, pairs, (5, 3, 1, 4, 2), None, "low"))
   return items
 
 
@@ -219,36 +262,129 @@ def graph_items (quick):
 # Part H: histories on netsim
 # =====================================================================================================
 TOPOS = {
-  # name: (ports per switch, bidirectional links)
-  "triangle": ([3, 3, 3], [((0, 1), (1, 1)), ((1, 2), (2, 1)), ((0, 2), (2, 2))]),
-  "square+diag": ([4, 3, 4, 3], [((0, 1), (1, 1)), ((1, 2), (2, 1)), ((2, 2), (3, 1)), ((3, 2), (0, 2)), ((0, 3), (2, 3))]),
+  # name: (ports per switch, bidirectional links, minimum frame size of each link's medium: 0 = frames arrive as sent
+  #        (virtual link), 60 = Ethernet: shorter frames arrive zero-padded to the minimum frame size)
+  "triangle": ([3, 3, 3], [((0, 1), (1, 1)), ((1, 2), (2, 1)), ((0, 2), (2, 2))], [60, 0, 60]),
+  "square+diag": ([4, 3, 4, 3], [((0, 1), (1, 1)), ((1, 2), (2, 1)), ((2, 2), (3, 1)), ((3, 2), (0, 2)), ((0, 3), (2, 3))], [60, 0, 60, 0, 60]),
 }
 BCAST = b"\xff" * 6
 FLOOD_FRAME = BCAST + bytes.fromhex("020000000099") + b"\x88\xb5" + b"flood-probe-" + bytes(34)
+FAULT_TYPES_QUICK = ((W.PORT_MOD, 2), (W.PACKET_OUT, 1))             # (message type, fail at up to the k-th write of it)
+FAULT_TYPES_THOROUGH = ((W.PORT_MOD, 3), (W.PACKET_OUT, 2), (W.BARRIER_REQUEST, 1), (W.FEATURES_REQUEST, 1), (W.FLOW_MOD, 1))
+
+
+def make_net (world, nports, clock, components):
+  """netsim.Net with (a) media that pad short frames, (b) control channels that can break: a write to a broken
+  channel fails with EPIPE, and the controller's select loop notices the dead socket (Connection.close()) as soon
+  as the handler that was running returns."""
+  import errno, socket
+  from mc.netsim import Net
+  class HNet (Net):
+    def __init__ (self, *a, **k):
+      self.broken = []
+      self.min_frame = {}                 # (sw, port) -> minimum size of frames arriving from that port's cable
+      Net.__init__(self, *a, **k)
+    def connect (self, i):
+      self.sw[i].sw.set_connection(self.sw[i].conn)
+      self.sw[i].drain()
+      self.con[i] = ci = self.cs.connect()
+      self._wrap(i, self.cs.cons[ci].sock)
+      self.pump()
+    def _wrap (self, i, sock):
+      orig = sock.send
+      sock.broken = False
+      def send (data, flags=0):
+        if sock.broken: raise socket.error(errno.EPIPE, "broken pipe")
+        t = data[1] if len(data) >= 8 else None
+        if world.recording: world.writes[i].append(t)
+        f = world.fault
+        if f is not None and f[0] == i and f[1] == t and not world.fault_fired:
+          world.fcount += 1
+          if world.fcount == f[2]:
+            world.fault_fired = True
+            sock.broken = True
+            self.broken.append(i)
+            world.switch_died(i)
+            raise socket.error(errno.EPIPE, "broken pipe")
+        return orig(data, flags)
+      sock.send = send
+    def reap (self):
+      while self.broken:
+        i = self.broken.pop(0)
+        ci = self.con[i]
+        if ci is not None:
+          self.cs.close(ci)
+          self.con[i] = None
+          self.sw[i].drain()
+    def pump_control (self):
+      moved = False
+      for i, st in enumerate(self.sw):
+        ci = self.con[i]
+        if ci is None:
+          st.drain(); continue
+        out = st.drain()
+        if out:
+          moved = True
+          self.cs.feed(ci, out)
+          self.reap()
+          ci = self.con[i]
+          if ci is None: continue
+        tx = self.cs.take_tx(ci)
+        if tx:
+          moved = True
+          st.feed(tx)
+      return moved
+    def _emit (self, i, port, frame, q, rec):
+      m = self.min_frame.get((i, port), 0)
+      if len(frame) < m and (i, port) in self.peer: frame = frame + bytes(m - len(frame))
+      Net._emit(self, i, port, frame, q, rec)
+  return HNet(nports, [], clock=clock, max_buffers=8, components=components)
 
 
 class HWorld (object):
   def __init__ (self, topo):
-    from mc.netsim import Net
     from mc.env import VClock
     # "triangle@3": the same topology with Discovery(link_timeout=3)
+    # "triangle;carrier": a cable that goes down / comes up is reported by both switches (PortStatus MODIFY, OFPPS_LINK_DOWN)
+    # "triangle;dark": carrier, and the switches connect while all cables are still unplugged
     topo, _, lt = topo.partition("@")
+    topo, _, flags = topo.partition(";")
+    self.carrier = flags in ("carrier", "dark")
+    self.dark = flags == "dark"
     self.link_timeout = float(lt) if lt else None
-    self.nports, self.links = TOPOS[topo]
+    self.nports, self.links, self.media = TOPOS[topo]
     self.clock = VClock(9000.0)
     self.link_events = []
+    self.recording = False; self.writes = dict((i, []) for i in range(len(self.nports)))
+    self.fault = None; self.fcount = 0; self.fault_fired = False
+    self.cls = ""; self.resession = None
     def comps (net):
       self.D, self.ST, self.disc = controller_components(self.clock, self.link_events, self.link_timeout)
-    self.net = Net(self.nports, [], clock=self.clock, max_buffers=8, components=comps)
-    self.up = dict((i, "up") for i in range(len(self.links)))        # physical link state: up | down | ab | ba (one-way)
+    self.net = make_net(self, self.nports, self.clock, comps)
+    for i, (a, b) in enumerate(self.links):
+      self.net.min_frame[a] = self.net.min_frame[b] = self.media[i]
+    self.up = dict((i, "down" if self.dark else "up") for i in range(len(self.links)))   # physical link state: up | down | ab | ba (one-way)
     self.connected = dict((i, True) for i in range(len(self.nports)))
+    self.was_linked = set()              # (sw, port) that have been on a live link at some time
+    if self.dark:
+      for i in range(len(self.links)): self._carrier(i, False)
+      for st in self.net.sw: st.drain()
     self._wire()
     self.net.connect_all()
     self._flood_flows(range(len(self.nports)))
-    self.bad = []
+    self.bad = []; self.soft = []
     self.settle()
 
-  def fail (self, k, what): self.bad.append(("%s:H:%s" % (PID, k), what))
+  def fail (self, k, what): self.bad.append(("%s:H:%s%s" % (PID, k, self.cls), what))
+
+  def _carrier (self, li, on):
+    for (swi, port) in self.links[li]:
+      sw = self.net.sw[swi].sw
+      p = sw.ports[port]
+      new = (p.state & ~W.OFPPS_LINK_DOWN) | (0 if on else W.OFPPS_LINK_DOWN)
+      if new != p.state:
+        p.state = new
+        sw.send_port_status(p, W.OFPPR_MODIFY)
 
   def _wire (self):
     self.net.peer = {}
@@ -257,6 +393,12 @@ class HWorld (object):
       if self.connected[a[0]] and self.connected[b[0]]:
         if self.up[i] in ("up", "ab"): self.net.peer[a] = b
         if self.up[i] in ("up", "ba"): self.net.peer[b] = a
+        if self.up[i] != "down": self.was_linked.add(a); self.was_linked.add(b)
+
+  def switch_died (self, i):
+    """The switch behind a control channel that breaks is gone, dataplane included."""
+    self.connected[i] = False
+    self._wire()
 
   def _flood_flows (self, sws):
     for i in sws:
@@ -279,6 +421,7 @@ class HWorld (object):
       if t.recurring: t.due += t.interval
       else: t.cancelled = True
       if t.callback(*t.args, **t.kw) is False and t.recurring: t.cancelled = True
+      self.net.reap()
       self.net.pump()
       fired += 1
       if fired > 5000: raise RuntimeError("timer storm: more than 5000 timer firings in %s virtual seconds" % seconds)
@@ -297,14 +440,24 @@ class HWorld (object):
         if st != self.up[i]: o.append((st, i))
     for i in range(len(self.nports)):
       o.append(("disc", i) if self.connected[i] else ("conn", i))
+      if self.connected[i]: o.append(("reconn", i))
     return o
 
-  def apply (self, op):
+  def apply (self, op, fault=None):
+    """fault = (switch, OpenFlow message type, k): while the event is being absorbed, the controller's k-th write of
+    that type to that switch's control channel fails and the channel stays broken (the switch has died)."""
     self.bad = []
     n0 = len(self.link_events)
     k, i = op
+    self.writes = dict((j, []) for j in range(len(self.nports))); self.recording = True
+    self.fault = fault; self.fcount = 0; self.fault_fired = False
+    self.cls = ":after-channel-break" if fault else (":after-reconnect-overlap" if k == "reconn" else "")
+    self.resession = self.dp(i) if k == "reconn" else None
     if k in ("down", "up", "ab", "ba"):
+      was = self.up[i]
       self.up[i] = k; self._wire()
+      if self.carrier and (was == "down") != (k == "down"): self._carrier(i, k != "down")
+      self.net.pump()
     elif k == "disc":
       self.connected[i] = False; self.net.disconnect(i); self._wire()
     elif k == "conn":
@@ -315,12 +468,22 @@ class HWorld (object):
       self._wire()
       self.net.connect(i)
       self._flood_flows([i])
+    elif k == "reconn":
+      # the switch's control session is re-established (the switch itself keeps running, configuration and flow
+      # table included) and the controller learns of the old session's death only after the new one is up
+      old = self.net.con[i]
+      self.net.connect(i)
+      self.net.cs.close(old)
+      self.net.pump()
+      self._flood_flows([i])             # (the controller clears a switch's flow table when it connects)
     try:
       self.settle()
     except RuntimeError as e:
       self.fail("loop", str(e)); return ("loop",)
+    finally:
+      self.recording = False; self.fault = None
     self.check(n0)
-    return (k, tuple(sorted(self.noflood())))
+    return (k, tuple(sorted(self.noflood())), bool(fault) and self.fault_fired)
 
   def dp (self, i): return i + 1
 
@@ -345,8 +508,9 @@ class HWorld (object):
       self.fail("adjacency:%s" % ("stale-link-kept" if extra else "link-not-discovered"),
                 "discovered adjacency differs from the physical links: not withdrawn %r, not discovered %r" % (extra, missing))
     # 1b. nothing physical changed while settling: a link that is physically there must not be withdrawn
+    #     (the links of a switch whose old control session is reported down may be withdrawn and found again)
     for added, l in self.link_events[n0:]:
-      if not added and l in phys:
+      if not added and l in phys and self.resession not in (l[0], l[2]):
         self.fail("events:healthy-link-withdrawn", "link %r was announced removed although it is physically up" % (l,)); break
     # 2. LinkEvent stream alternates per link, starting with added
     state = {}
@@ -386,41 +550,81 @@ class HWorld (object):
       for d in live:
         if d != s and d in comp and got[d] == 1 and (d, self.nports[d]) not in hp:
           self.fail("edge-port-not-flooding", "switch %d received the flooded frame but did not deliver it on its host-facing port" % (d + 1)); return
+    # 4. every port of a connected switch that is on no physical link (in either direction) is host-facing - whether
+    #    it always was or a cable has since been unplugged from it - and must have flooding enabled (NO_FLOOD bit of
+    #    the real switch).  Recorded without ending the history.
+    onlink = set()
+    for (a, pa, b, pb) in phys: onlink.add((a - 1, pa)); onlink.add((b - 1, pb))
+    for (i, port) in self.noflood():
+      if i in live and (i, port) not in onlink:
+        kind = "port-was-on-a-link" if (i, port) in self.was_linked else "host-port"
+        self.soft.append(("%s:H:edge-port-not-flooding:%s" % (PID, kind),
+                          "port %d of switch %d is on no link (a host may be attached) but has flooding disabled" % (port, i + 1)))
+        break
 
 
-def h_run (topo, hist):
+def h_run (topo, hist, fault=None):
+  """Runs one history; fault (if any) accompanies its last event.  Returns (violations, outcome, world)."""
   w = HWorld(topo)
-  if w.bad: return w.bad, ("init",)
+  if w.bad: return w.bad, ("init",), w
   w.check(0)
-  if w.bad: return [(k + ":initial", what) for k, what in w.bad], ("init",)
+  if w.bad or w.soft: return [(k + ":initial", what) for k, what in w.bad + w.soft], ("init",), w
   out = None
-  for op in hist:
-    if tuple(op) not in w.ops(): return None, None
-    out = w.apply(tuple(op))
+  for n, op in enumerate(hist):
+    if tuple(op) not in w.ops(): return None, None, w
+    out = w.apply(tuple(op), fault if n == len(hist) - 1 else None)
     if w.bad: break
-  return w.bad, out
+  soft = []
+  for k, what in w.soft:
+    if k not in [x for x, _ in soft]: soft.append((k, what))
+  return w.bad + soft, out, w
+
+
+def fault_plan (w, quick):
+  """The channel-break faults worth running after a fault-free run: (switch, message type, k) for every k-th write of
+  that type the controller made to that switch while it absorbed the last event (a fault at a write that never
+  happens is the fault-free run)."""
+  plan = []
+  for i in sorted(w.writes):
+    for t, kmax in (FAULT_TYPES_QUICK if quick else FAULT_TYPES_THOROUGH):
+      for k in range(1, min(kmax, w.writes[i].count(t)) + 1): plan.append((i, t, k))
+  return plan
 
 
 def _h_worker (items):
   from mc.env import boot
   boot()
   rep = Report(PID, "model_checking")
-  for topo, hist in items:
-    bad, out = h_run(topo, hist)
+  for topo, hist, faults, quick in items:
+    bad, out, w = h_run(topo, hist)
     if bad is None: continue
     rep.evaluations += 1; rep.transitions += len(hist)
     rep.outcome(("H", topo, hist[-1] if hist else None, out, tuple(k for k, _ in bad)))
     for k, what in bad:
       rep.violation(k, what + " [%s after %r]" % (topo, list(hist)), dict(part="H", topo=topo, history=[list(o) for o in hist]))
     if len(hist) == 2 and rep.evaluations % 50 == 1: rep.sample(dict(part="H", topo=topo, history=[list(o) for o in hist], no_flood=out))
+    if not (faults and hist) or [k for k, _ in bad if ":edge-port-not-flooding:port-was-on-a-link" not in k]: continue
+    for f in fault_plan(w, quick):
+      fbad, fout, fw = h_run(topo, hist, f)
+      rep.evaluations += 1; rep.transitions += len(hist)
+      fname = (f[0], W.TYPE_NAMES[f[1]], f[2])
+      rep.outcome(("HF", topo, hist[-1], fname, fout, tuple(k for k, _ in fbad)))
+      for k, what in fbad:
+        rep.violation(k, what + " [%s after %r, where during the last event the controller's write no. %d of %s to switch %d fails and the switch is gone]"
+                      % (topo, list(hist), f[2], fname[1], f[0] + 1), dict(part="H", topo=topo, history=[list(o) for o in hist], fault=list(f)))
   rep.state_count = rep.evaluations
   return rep
 
 
 def h_items (quick):
   items = []
-  for topo, depth in (("triangle", 3 if quick else 4), ("square+diag", 2 if quick else 3), ("triangle@3", 2 if quick else 3), ("triangle@1", 1 if quick else 2)):
-    base = topo.partition("@")[0]
+  plan = (("triangle", 3 if quick else 4, 1 if quick else 2), ("square+diag", 2 if quick else 3, 1),
+          ("triangle@3", 2 if quick else 3, 1), ("triangle@1", 1 if quick else 2, 1),
+          ("triangle;dark", 2 if quick else 3, 1 if quick else 2))
+  if not quick: plan += (("triangle;carrier", 3, 1), ("square+diag;dark", 2, 1), ("triangle;dark@3", 2, 1))
+  for topo, depth, fdepth in plan:
+    base = topo.partition("@")[0].partition(";")[0]
+    dark = ";dark" in topo
     nl = len(TOPOS[base][1]); ns = len(TOPOS[base][0])
     alpha = [(st, i) for i in range(nl) for st in ("down", "up", "ab", "ba")] + \
             [("disc", i) for i in range(ns)] + [("conn", i) for i in range(ns)]
@@ -435,9 +639,15 @@ def h_items (quick):
             if cur != (k == "disc"): ok = False; break
             st[("s", i)] = not cur
           else:
-            if st.get(("l", i), "up") == k: ok = False; break
+            if st.get(("l", i), "down" if dark else "up") == k: ok = False; break
             st[("l", i)] = k
-        if ok: items.append((topo, h))
+        if not ok: continue
+        # histories of up to fdepth events are also run with a channel-break fault accompanying their last event
+        # (spawned by the worker from what the fault-free run wrote), and with a terminal reconnect-overlap event
+        items.append((topo, h, 0 < d <= fdepth, quick))
+        if d <= fdepth and d < depth:
+          for i in range(ns):
+            if st.get(("s", i), True): items.append((topo, h + (("reconn", i),), False, quick))
   return items
 
 
@@ -454,7 +664,7 @@ def _p_worker (dpids):
   D, ST, disc = controller_components(clock, ev)
   import pox.openflow.libopenflow_01 as of
   import pox.openflow as ofm
-  ports = (1, 2, 9, 10, 255, 256, 12337, 0xfeff)
+  ports = (1, 2, 9, 10, 255, 256, 12337, 0xfeff, 0xff00)
   class C (object): pass
   rx = StubCon(0x77, 4, clock); cs.nexus._connections[0x77] = rx
   for dpid in dpids:
@@ -481,6 +691,55 @@ def _p_worker (dpids):
     del cs.nexus._connections[dpid]
   rep.state_count = rep.evaluations
   return rep
+
+
+def _p2_worker (items):
+  """Probes as they arrive over a medium: the frame the sender built, followed by k bytes of padding (Ethernet pads
+  frames to its minimum size; everything after the End-Of-LLDPDU TLV is to be ignored by the receiver)."""
+  from mc.env import boot, VClock, ControllerStack
+  boot()
+  rep = Report(PID, "model_checking")
+  clock = VClock()
+  cs = ControllerStack(clock)
+  ev = []
+  D, ST, disc = controller_components(clock, ev)
+  import pox.openflow.libopenflow_01 as of
+  import pox.openflow as ofm
+  rx = StubCon(0x77, 4, clock); cs.nexus._connections[0x77] = rx
+  for dpid, port, pad in items:
+    src = StubCon(dpid, [port], clock); cs.nexus._connections[dpid] = src
+    rep.evaluations += 1; rep.transitions += 1
+    disc.adjacency.clear(); del ev[:]
+    bad = None
+    try:
+      raw = D.LLDPSender._create_discovery_packet(dpid, port, b"\x02\x00\x00\x00\x00\x01", 120).pack()
+      k = max(0, int(pad[2:]) - len(raw)) if isinstance(pad, str) else pad
+      e = ofm.PacketIn(rx, of.ofp_packet_in(in_port=3, data=raw + bytes(k)))
+      disc._handle_openflow_PacketIn(e)
+      got = [tuple(l) for l in disc.adjacency]
+      if got != [(dpid, port, 0x77, 3)]:
+        bad = ("padded-probe-not-decoded" if not got else "padded-probe-decoded-wrong",
+               "probe for dpid %#x port %d (%d bytes) followed by %d bytes of padding was decoded as link %r" % (dpid, port, len(raw), k, got))
+    except Exception as ex:
+      bad = ("padded-probe-raised:%s" % type(ex).__name__, "probe for dpid %#x port %d with padding %r: %r" % (dpid, port, pad, ex))
+    rep.outcome(("P2", len(hex(dpid)), len(str(port)), pad, bad and bad[0]))
+    if bad: rep.violation("%s:P:%s" % (PID, bad[0]), bad[1], dict(part="P2", dpid=dpid, port=port, pad=pad))
+    if rep.evaluations % 2000 == 1: rep.sample(dict(part="P2", dpid=dpid, port=port, pad=pad, decoded=not bad))
+    del cs.nexus._connections[dpid]
+  rep.state_count = rep.evaluations
+  return rep
+
+
+def p2_items (quick):
+  """Every probe length class (1..16 hex digits of dpid x 1..5 decimal digits of port) x every padding length 0..24 and
+  padding up to the 60- and 64-byte minimum frame sizes."""
+  dpids = []
+  for k in range(1, 17):
+    for d in (int("1" + "0" * (k - 1), 16), int("f" * k, 16)):
+      if d != 0x77 and d not in dpids: dpids.append(d)
+  ports = (1, 10, 100, 1000, 10000, 0xff00)
+  pads = list(range(0, 25)) + ["to60", "to64"]
+  return [(d, p, k) for d in dpids for p in ports for k in pads]
 
 
 def p_items (quick):
@@ -513,17 +772,30 @@ def run (cfg):
     pi = p_items(cfg.quick)
     for r in pmap(_p_worker, split(pi, cfg.workers * 2), cfg.workers, seed=cfg.seed): rep.merge(r)
     rep.extra["probe_dpids"] = len(pi)
+    p2 = p2_items(cfg.quick)
+    for r in pmap(_p2_worker, split(p2, cfg.workers), cfg.workers, seed=cfg.seed): rep.merge(r)
+    rep.extra["padded_probes"] = len(p2)
   rep.rule = ("G: every multigraph on 2-4 switches (thorough: 5 with a 4-element pair alphabet) where each unordered pair is one of "
-              "%r, dpids in and against sorted order, run through the real _calc_spanning_tree/_update_tree; own flood simulation over "
+              "%r, dpids in and against sorted order, run through the real _calc_spanning_tree/_update_tree; the graphs on 2-3 (thorough 4) switches again with "
+              "the ports numbered %r (254.., OFPP_MAX-1 downwards, OFPP_MAX downwards, cable ports ending at OFPP_MAX), and the graphs on 2-3 switches with every "
+              "non-empty assignment of %r (a cable between two ports of one switch) to the switches; own flood simulation over "
               "the physical links. H: every enabled sequence of <=%d events {a link goes down / up / one-way in either direction, switch disconnect/connect} on a triangle and a "
-              "square with a diagonal (and the triangle again with Discovery(link_timeout=3) and (link_timeout=1)) in netsim with real LLDP probes and the real FLOOD action; "
+              "square with a diagonal (and the triangle again with Discovery(link_timeout=3) and (link_timeout=1), and started dark: the switches connect with all cables unplugged "
+              "and report carrier changes by PortStatus) in netsim with real LLDP probes and the real FLOOD action, every second cable an Ethernet medium that pads frames to 60 bytes; "
+              "histories of <=%d events also (a) followed by a reconnect-overlap event per switch (new control session up before the old one is reported down) and (b) with a "
+              "channel-break fault accompanying the last event: for every switch and message type in %r the controller's k-th write of that type fails with EPIPE, the switch is gone "
+              "and the select loop closes the connection when the running handler returns; "
               "after every event the components' own timers (probe sender, link expiry, delayed port checks) run on the virtual clock for two link timeouts plus a check period. P: probe encode->decode for dpids with "
-              "bytes in {0,1,0x80,0xff} x ports (1,2,9,10,255,256,12337,0xfeff). distinct = (part, observation, verdict)"
-              % (list(PAIR_QUICK), 3 if cfg.quick else 4))
-  rep.bound = dict(graph_switches=4 if cfg.quick else 5, history_depth=dict(triangle=3 if cfg.quick else 4, square_diag=2 if cfg.quick else 3))
+              "bytes in {0,1,0x80,0xff} x ports (1,2,9,10,255,256,12337,0xfeff,0xff00); every probe length class (1-16 hex digits of dpid x 1-5 digits of port) followed by "
+              "0..24 bytes of padding and padded to 60 and 64 bytes. distinct = (part, observation, verdict)"
+              % (list(PAIR_QUICK), list(NUMBERINGS[1:]), list(SELF_KINDS[1:]), 3 if cfg.quick else 4, 1 if cfg.quick else 2,
+                 [(W.TYPE_NAMES[t], k) for t, k in (FAULT_TYPES_QUICK if cfg.quick else FAULT_TYPES_THOROUGH)]))
+  rep.bound = dict(graph_switches=4 if cfg.quick else 5, history_depth=dict(triangle=3 if cfg.quick else 4, square_diag=2 if cfg.quick else 3, triangle_dark=2 if cfg.quick else 3),
+                   fault_history_depth=1 if cfg.quick else 2)
   rep.assumptions = ["discovery settles through three send cycles 4 s apart, an expiry check and one more cycle (virtual clock)",
-                     "a reconnecting switch comes back with flooding enabled on all ports and an empty flow table",
-                     "self-loops (a switch linked to itself) are not enumerated"]
+                     "a reconnecting switch comes back with flooding enabled on all ports and an empty flow table; a switch whose control session is merely re-established keeps both",
+                     "a switch whose control channel breaks is gone (dataplane included) from the failing write on",
+                     "one-way link states are silent (no carrier change); padding bytes are zero"]
   return rep
 
 
@@ -531,10 +803,16 @@ def replay (cfg, data):
   from mc.env import boot, VClock
   boot()
   if data["part"] == "G":
-    bad, obs = run_graph(data["n"], tuple(data["pairs"]), tuple(data["dpids"]), VClock)
+    bad, obs = run_graph(data["n"], tuple(data["pairs"]), tuple(data["dpids"]), VClock,
+                         data.get("selfs") and tuple(data["selfs"]), data.get("numbering", "low"))
     return bool(bad), "graph %r on %r -> NO_FLOOD ports %r\n%r" % (data["pairs"], data["dpids"], obs, bad)
   if data["part"] == "H":
-    bad, out = h_run(data["topo"], [tuple(o) for o in data["history"]])
-    return bool(bad), "%s history %r -> %r\n%r" % (data["topo"], data["history"], out, bad)
+    f = data.get("fault")
+    bad, out, w = h_run(data["topo"], [tuple(o) for o in data["history"]], f and tuple(f))
+    return bool(bad), "%s history %r fault %r -> %r\n%r" % (data["topo"], data["history"], f, out, bad)
+  if data["part"] == "P2":
+    pad = data["pad"]
+    rep = _p2_worker([(data["dpid"], data["port"], pad)])
+    return bool(rep.violations), repr(rep.violations)
   rep = _p_worker([data["dpid"]])
   return bool(rep.violations), repr(rep.violations)
